@@ -34,7 +34,71 @@ func isSizeCall(v ssa.Value) (*ssa.Call, bool) {
 	if IsPlyMethod(callee, "ScalarProperty", "Size") || IsPlyMethod(callee, "ScalarPropertyType", "Size") {
 		return c, true
 	}
+	if _, ok := sizeHelperParam(c); ok {
+		return c, true
+	}
 	return nil, false
+}
+
+// sizeHelperParam: c calls a formats/ply function whose every return is Size() of (something
+// derived from) one of its parameters — `func sizeOf(p Property) int { return p.(ScalarProperty).Size() }`.
+// Returns the index of that parameter.
+func sizeHelperParam(c *ssa.Call) (int, bool) {
+	g := c.Common().StaticCallee()
+	if g == nil || g.Blocks == nil || g.Pkg == nil || g.Pkg.Pkg.Path() != PlyPath || g.Signature.Results().Len() != 1 {
+		return 0, false
+	}
+	if !isInteger(g.Signature.Results().At(0).Type()) {
+		return 0, false
+	}
+	param := -1
+	ok := true
+	nret := 0
+	ssau.AllInstrs(g, func(in ssa.Instruction) {
+		r, isR := in.(*ssa.Return)
+		if !isR || !ok {
+			return
+		}
+		nret++
+		sc, isCall := StripConv(r.Results[0]).(*ssa.Call)
+		if !isCall {
+			ok = false
+			return
+		}
+		_, callee := CallTo(sc)
+		if !(IsPlyMethod(callee, "ScalarProperty", "Size") || IsPlyMethod(callee, "ScalarPropertyType", "Size")) {
+			ok = false
+			return
+		}
+		found := -1
+		BackSlice(RecvArg(sc.Common()), func(x ssa.Value) bool {
+			if p, isP := x.(*ssa.Parameter); isP {
+				for i, gp := range g.Params {
+					if gp == p {
+						found = i
+					}
+				}
+			}
+			return true
+		})
+		if found < 0 || (param >= 0 && param != found) {
+			ok = false
+			return
+		}
+		param = found
+	})
+	if !ok || nret == 0 || param < 0 || param >= len(c.Common().Args) {
+		return 0, false
+	}
+	return param, true
+}
+
+// sizeRecv: the value whose Size() the call delivers.
+func sizeRecv(c *ssa.Call) ssa.Value {
+	if k, ok := sizeHelperParam(c); ok {
+		return c.Common().Args[k]
+	}
+	return RecvArg(c.Common())
 }
 
 // propElemAddrs: the IndexAddr instructions of fn that address an element of a []Property.
@@ -116,7 +180,7 @@ func (b *builderCtx) counter(phi *ssa.Phi) *Counter {
 //   - any other counter (the running byte size) is a symbol of its own.
 func (b *builderCtx) symLin(v ssa.Value) (Lin, bool) {
 	if c, ok := isSizeCall(v); ok {
-		if b.onCurrentElem(RecvArg(c.Common())) {
+		if b.onCurrentElem(sizeRecv(c)) {
 			if b.sizeRep == nil {
 				b.sizeRep = c
 			}
@@ -250,6 +314,7 @@ func lay4Builder(e *Env, fn *ssa.Function, binary bool, built map[*types.Named]b
 			leaves := PhiLeaves(s.Val, func(p *ssa.Phi) bool { return b.isSym(p) })
 			captures := 0
 			var facts []string
+			undecHelper := ""
 			verdictBad := ""
 			axisBad := ""
 			undec := ""
@@ -281,6 +346,10 @@ func lay4Builder(e *Env, fn *ssa.Function, binary bool, built map[*types.Named]b
 						}
 					}
 					if !okForm {
+						if viaHelper(lf.V) {
+							undecHelper = "the byte offset is computed by a helper function; the offset discipline is only analysed where the scan and the construction are in one function"
+							continue
+						}
 						verdictBad = fmt.Sprintf("captured byte offset is %s, not the running size before the advance (%s)", form, where)
 						continue
 					}
@@ -319,6 +388,8 @@ func lay4Builder(e *Env, fn *ssa.Function, binary bool, built map[*types.Named]b
 			}
 			sort.Strings(facts)
 			switch {
+			case verdictBad == "" && undecHelper != "":
+				e.Undecide(fn, rule, construct, s.Pos(), undecHelper, facts...)
 			case verdictBad != "":
 				e.Violate(fn, rule, construct, s.Pos(), verdictBad+": a file whose properties are laid out differently from the library's own writer is decoded from the wrong bytes/column", facts...)
 			case captures == 0:
@@ -397,4 +468,18 @@ func (b *builderCtx) discoverSize() {
 			}
 		}
 	})
+}
+
+// viaHelper: v is (an extracted result of) a call of a formats/ply function.
+func viaHelper(v ssa.Value) bool {
+	v = StripConv(v)
+	if ex, ok := v.(*ssa.Extract); ok {
+		v = ex.Tuple
+	}
+	cl, ok := v.(*ssa.Call)
+	if !ok {
+		return false
+	}
+	g := cl.Common().StaticCallee()
+	return g != nil && g.Pkg != nil && g.Pkg.Pkg.Path() == PlyPath && g.Blocks != nil
 }
